@@ -306,7 +306,23 @@ def run(ctx) -> list[Inst]:
                     subject = ttxt
                 vtxt = stmt_text(w.value)
                 same_subject = subject is not None and (subject in vtxt or (w.src and subject.endswith(w.src.split('.', 1)[-1])))
-                if w.guard in ('not-none', 'truthy') and same_subject:
+                falsy_loss = False
+                if w.guard == 'truthy' and same_subject and w.src and w.src.startswith('self.') and w.func.cls is not None \
+                        and len(w.src.split('.')) == 2:
+                    ft_ = prog.field_type(w.func.cls.name, w.src.split('.')[1])
+                    # a truthiness guard drops EVERY falsy value: fine for a container whose empty state is the reader's
+                    # default, wrong for flags, numbers and optional strings (False, 0.0, '' are values of their own)
+                    if ft_ and ft_[0] not in ('list', 'dict', 'set', 'unk'):
+                        falsy_loss = True
+                if falsy_loss:
+                    insts.append(Inst(
+                        RULE, w.func.short, construct, 'violation',
+                        msg=(f"'{path[-1]}' is written only 'if {ttxt}': a truthiness test also drops the values False / 0 / '' of "
+                             f"{w.src}; the reader then assumes its default (True for the analysis labels, None for an "
+                             f"annotation) - a lowered label or an empty annotation does not survive the file"),
+                        file=w.func.module.relpath, line=w.guard_test.lineno,
+                        props=props + (('C08', 'C19') if w.func.short == 'AttackGraphNode.to_dict' else ())))
+                elif w.guard in ('not-none', 'truthy') and same_subject:
                     insts.append(Inst(RULE, w.func.short, construct, 'ok', msg=f'if {ttxt}',
                                       file=w.func.module.relpath, line=w.guard_test.lineno, props=props))
                 elif w.guard in ('not-none', 'truthy'):
